@@ -673,19 +673,33 @@ func (e *lfEngine) checkLoops(fn *ssa.Function) {
 		switch {
 		case countingLoop(l.blockList()):
 			verdict = "ok: counting loop (induction variable with positive constant step tested against a loop-invariant bound)"
-		case shrinkingSliceLoop(l):
+		case shrinkingSliceLoop(l, nil):
 			verdict = "ok: the loop re-slices its input by a positive offset on every iteration while it is non-empty"
 		case loopHasCtxCall(fn, l):
 			verdict = "ok: every iteration makes a context-bounded exchange (bounded by the context, see C13/C16)"
 		default:
 			verdict = "unknown: no ranking argument found"
+			e.loopPend[key] = l
 		}
 		e.loopsSeen[key] = verdict
 	}
 }
 
+// resolveLoops decides the loops left without a syntactic ranking argument from what the
+// engine established while executing them: a loop over a slice that is re-sliced, on every
+// back edge, by an offset the engine proved ≥ 1 in every state (through helpers, tuple
+// results and inner scanning loops alike). To be called after all runs are merged.
+func (e *lfEngine) resolveLoops() {
+	for key, l := range e.loopPend {
+		if shrinkingSliceLoop(l, e.sliceLow) {
+			e.loopsSeen[key] = "ok: the loop re-slices its input on every iteration by an offset proved ≥ 1 (engine E1), while it is non-empty"
+			delete(e.loopPend, key)
+		}
+	}
+}
+
 // shrinkingSliceLoop: header φ s with back-edge value s[k:], k ≥ 1, and an exit test on len(s).
-func shrinkingSliceLoop(l *Loop) bool {
+func shrinkingSliceLoop(l *Loop, proved map[*ssa.Slice]int8) bool {
 	for _, in := range l.Header.Instrs {
 		ph, ok := in.(*ssa.Phi)
 		if !ok {
@@ -701,7 +715,9 @@ func shrinkingSliceLoop(l *Loop) bool {
 				return false
 			}
 			if lb, ok := lowerBound(sl.Low); !ok || lb < 1 {
-				return false
+				if proved == nil || proved[sl] != 1 {
+					return false
+				}
 			}
 			shrinks = true
 		}
